@@ -61,12 +61,19 @@ def build(case, d, url_of):
                     hw.store_basin(basin_type="remote", basin_format="hdf5",
                                    basin_locs=[str(paths[v])], **kw)
                 elif kind == "dangling":
+                    # a location that does not exist, or one that is a
+                    # directory
+                    loc = d / ("missing_%d.rtdc" % v)
+                    if (u + v) % 2:
+                        loc = d / ("adir_%d_%d.rtdc" % (u, v))
+                        loc.mkdir(exist_ok=True)
                     hw.store_basin(basin_type="file", basin_format="hdf5",
-                                   basin_locs=[str(d / ("missing_%d.rtdc"
-                                                    % v))], **kw)
+                                   basin_locs=[str(loc)], **kw)
                 else:
                     if kind == "filemapped":
                         kw["basin_map"] = np.arange(N, dtype=np.uint64)
+                    if kind == "fileempty":
+                        kw["basin_feats"] = []
                     hw.store_basin(basin_type="file", basin_format="hdf5",
                                    basin_locs=[str(paths[v])], **kw)
     return paths
@@ -199,23 +206,28 @@ def main(tier, seed, replay=None):
             rids="FiveRids"), 1),
                  ("identifier relations K=3", dict(
                      k=3, kinds="LocalKinds", sl="FALSE", rt="FALSE",
-                     rids="FiveRids"), 40 if q else 2),
+                     rids="FiveRids"), 60 if q else 2),
                  ("missing identifiers K=2", dict(
                      k=2, kinds="LocalKinds", sl="FALSE", rt="FALSE",
                      rids="NoneRids"), 1),
                  ("missing identifiers K=3", dict(
                      k=3, kinds="LocalKinds", sl="FALSE", rt="FALSE",
-                     rids="NoneRids"), 12 if q else 1),
+                     rids="NoneRids"), 20 if q else 1),
                  ("missing root identifier K=2", dict(
                      k=2, kinds="LocalKinds", sl="FALSE", rt="FALSE",
                      rids="NoneRids", root="none"), 1),
                  ("local graphs K=3", dict(k=3, kinds="LocalKinds",
                                            sl="FALSE", rt="FALSE"),
-                  6 if q else 1),
+                  10 if q else 1),
                  ("self references K=2", dict(k=2, kinds="LocalKinds",
                                               sl="TRUE", rt="FALSE"), 1),
                  ("remote/dangling K=2", dict(k=2, kinds="AllKinds",
                                               sl="FALSE", rt="TRUE"), 1),
+                 ("empty feature lists K=2", dict(
+                     k=2, kinds="EmptyListKinds", sl="FALSE", rt="FALSE"), 1),
+                 ("empty feature lists K=3", dict(
+                     k=3, kinds="EmptyListKinds", sl="FALSE", rt="FALSE"),
+                  60 if q else 6),
                  ("remote-typed local paths K=2", dict(
                      k=2, kinds="DisguisedKinds", sl="FALSE", rt="TRUE"), 1),
                  ("remote-typed local paths K=3", dict(
@@ -223,7 +235,7 @@ def main(tier, seed, replay=None):
                   200 if q else 20),
                  ("remote/dangling K=3", dict(k=3, kinds="AllKinds",
                                               sl="FALSE", rt="TRUE"),
-                  400 if q else 40)]
+                  600 if q else 40)]
         for k, samp in ((4, 8), (5, 20), (6, 60)):
             plans.append(("chains, cycles, diamonds K=%d" % k, dict(
                 k=k, kinds="LocalKinds", sl="FALSE", rt="FALSE",
